@@ -288,7 +288,7 @@ Lemma atom_refines neg a ev :
   ev_wf ev = true -> atom_wf a = true -> atom_guard neg a ev = true ->
   impl_atom (if neg then neg_atom a else a) ev = xorb neg (spec_atom a ev).
 Proof.
-  intros Hev Ha Hg. destruct a as [f o l ci | w n | o l].
+  intros Hev Ha Hg. destruct a as [f o l ci | w n | o l n].
   - simpl in Ha, Hg. apply andb_true_iff in Hg. destruct Hg as [Hg Hc].
     pose proof (field_wf f ev Hev) as Hf.
     destruct neg; simpl.
@@ -299,9 +299,9 @@ Proof.
   - destruct neg; unfold impl_atom; simpl;
       rewrite (text_fields_any_ext _ (word_occurs true w) ev) by (intros s; apply is_subword_spec);
       destruct n, (text_fields_any (word_occurs true w) ev); reflexivity.
-  - cbn [atom_guard atom_wf] in *. destruct neg; [discriminate|]. cbn [negb andb xorb] in *.
-    unfold impl_atom. cbn [impl_atom_in spec_atom].
-    rewrite (any_refines o l (ev_fields ev) Hev Ha Hg). destruct (existsb _ _); reflexivity.
+  - cbn [atom_guard atom_wf] in *.
+    destruct neg; unfold impl_atom; cbn [neg_atom impl_atom_in spec_atom];
+      rewrite (any_refines o l (ev_fields ev) Hev Ha Hg); destruct n, (existsb _ _); reflexivity.
 Qed.
 
 (* deMorgansLaw + record-level evaluation = the expression, negated when under an odd number
@@ -365,6 +365,18 @@ Theorem not_complement_refuted :
 Proof.
   exists (EAtom (ACmp 1%N Gt (LNum (NLInt 2)) true)), (mkTr 0 10), [mkEv 7%N 5 []], (mkEv 7%N 5 []).
   split; [left; reflexivity|]. split; [reflexivity|]. split; vm_compute; tauto.
+Qed.
+
+(* NOT on an all-column comparison is the complement, for every operator, literal and record list (no guard): the
+   operator is kept and the record-level result negated (SearchQuery.IsNegated) *)
+Theorem not_allcolumn_is_complement o l n tr evs ev :
+  In ev (impl_select (ENot (EAtom (AAny o l n))) tr evs) <->
+  In ev evs /\ check_in_range tr (ev_ts ev) = true /\ ~ In ev (impl_select (EAtom (AAny o l n)) tr evs).
+Proof.
+  rewrite !impl_select_filter, !filter_In. unfold sel, peval. cbn [push_not negb neg_atom peval_in impl_atom_in].
+  destruct (check_in_range tr (ev_ts ev)), n,
+    (existsb (fun kv : N * stored => col_in None (fst kv) && impl_cmp true o (snd kv) l) (ev_fields ev));
+    simpl; intuition discriminate.
 Qed.
 
 Example expr_guard_satisfiable :
